@@ -669,7 +669,7 @@ func runPlan(p *Plan, faultAt int) (*CaseJ, int) {
 			if !sameDB(after, prev, p.Tables) || afterUndo != prevUndo {
 				bad("a failed rollback attempt of branch %d (call %d) left changes behind", bids[d.Branch], d.Fault)
 			}
-		case p.Stream == "corrupt":
+		case p.Stream == "corrupt" && undoByBranch[bids[d.Branch]] != nil && undoByBranch[bids[d.Branch]].Status == 0:
 			if out == 8 {
 				bad("an undecodable undo log of branch %d was answered PhaseTwo_Rollbacked", bids[d.Branch])
 			}
